@@ -367,8 +367,11 @@ class StmtMixin:
                 # else-if chain: the condition of the next `if` must not need statements of its own
                 nxt = cur.els
                 if nxt.cond.kind != 'LetCond':
-                    (_, _), lines, _ = self.capture(lambda: self.ex(nxt.cond))
-                    if lines:
+                    (ctext, _), lines, _ = self.capture(lambda: self.ex(nxt.cond))
+                    # under a `let x ← if …` head Lean lifts a nested action `(← …)` of an `else if` condition in front
+                    # of the whole `let` (it would run even when an earlier branch is taken); Rust evaluates it only
+                    # when the chain gets there: nest the rest of the chain in the `else` branch (its own `do` sequence)
+                    if lines or (prefix is not None and '(←' in ctext):
                         self.ind = kw
                         self.emit('else')
                         self.ind = body
